@@ -67,15 +67,17 @@ Definition byte_of_Z (z : Z) : byte := byte_of_N (Z.to_N z).
 
 (* frame_helpers.serialize_128max_value: length-1 on Python ints; only > 127 is rejected, so the EMPTY name
    gives (-1) & 0x7f = 127 followed by no name bytes *)
+Definition custom_header (l : Z) : byte := byte_of_Z (Z.land l 127).
 Definition ser_128max (enc : bytes) : option bytes :=
   let l := (Z.of_nat (length enc) - 1)%Z in
   if (l >? 127)%Z then None (* RSocketMimetypeTooLong *)
-  else Some (byte_of_Z (Z.land l 127) :: enc).
+  else Some (custom_header l :: enc).
 
 (* helpers.serialize_well_known_encoding: (1 << 7) | known_type & 0b1111111, [&] binds tighter; ids -2/-1 give FE/FF *)
+Definition known_header (id : Z) : byte := byte_of_Z (Z.lor 128 (Z.land id 127)).
 Definition ser_wk (tbl : list (bytes * Z)) (enc : bytes) : option bytes :=
   match dict_get tbl enc with
-  | Some id => Some [byte_of_Z (Z.lor 128 (Z.land id 127))]
+  | Some id => Some [known_header id]
   | None => ser_128max enc
   end.
 
